@@ -290,7 +290,74 @@ def pred_sequence(case, stats):
     close_proxy(via)
 
 
-CLAUSES = {'fault': pred_fault, 'sequence': pred_sequence}
+# ------------------------------------------------------------------------------------------------
+# poll.run: results reach process() only from completely received polls of the current cycle
+
+
+def pred_poll(case, stats):
+    """case = {'exchange': ex (reads only are used), 'cut_at': k|None, 'cycles': n}.  The device's values change at every
+    poll-cycle boundary (after the last process() call of a poll, and in failure()), so a value delivered for a poll whose
+    reply was not completely received -- eg. a stale result of an earlier poll -- is recognisable."""
+    from cpppo.server.enip import poll
+    from cpppo.server.enip.get_attribute import proxy
+    srv, relay = env()
+    ex = case['exchange']
+    reads = [o for o in ex['ops'] if o['kind'] == 'read'] or [{'kind': 'read', 'tag': 'V', 'elem': 0, 'count': 2}]
+    params = [op_text(o) for o in reads]
+    stats.case(case, nontrivial=case['cut_at'] is not None, classes=['poll:' + ('cut' if case['cut_at'] is not None else 'fault-free')])
+    state = {'cycle': 0, 'got': [], 'failures': 0, 'problems': []}
+
+    def set_cycle(c):
+        state['cycle'] = c
+        for name, vals in INIT.items():
+            srv.set_values(name, [v + 1000 * c if not isinstance(v, float) else v + 1000.0 * c for v in vals])
+
+    def expected(o):
+        c = state['cycle']
+        return [v + 1000 * c if not isinstance(v, float) else v + 1000.0 * c for v in INIT[o['tag']][o['elem']:o['elem'] + o['count']]]
+
+    def process(p, v):
+        i = len(state['got'])
+        if i >= len(params) or p != params[i] or not same(v, expected(reads[i])):
+            state['problems'].append({'cycle': state['cycle'], 'param': p, 'value': common.jsonable(v),
+                                      'expected_now': None if i >= len(params) else common.jsonable(expected(reads[i])), 'position': i})
+        state['got'].append(p)
+        if len(state['got']) >= len(params):
+            state['got'] = []
+            if state['cycle'] + 1 >= case['cycles']:
+                process.done = True
+            set_cycle(state['cycle'] + 1)
+
+    def failure(exc):
+        state['failures'] += 1
+        if state['got']:
+            state['problems'].append({'cycle': state['cycle'], 'partial_poll_delivered': list(state['got'])})
+        state['got'] = []
+        if state['failures'] > 3 or state['cycle'] + 1 >= case['cycles']:
+            process.done = True
+        set_cycle(state['cycle'] + 1)
+
+    set_cycle(0)
+    plan = [None] if case['cut_at'] is None else [{'dir': 's2c', 'kind': 'cut', 'at': case['cut_at']}, None, None]
+    relay.set_plan(plan)
+    via = proxy(host=relay.address[0], port=relay.address[1], timeout=2.0, depth=ex['depth'], multiple=ex['multiple'])
+    try:
+        poll.run(via, process=process, failure=failure, cycle=0.01, latency=0.01, params=params, pass_thru=True)
+    finally:
+        close_proxy(via)
+        relay.wait_idle(2.0)
+        reset_tags(srv)
+    for pr in state['problems'][:1]:
+        stats.fail('poll', 'poll:value-delivered-for-a-poll-not-completely-received-or-of-another-cycle', case, observed=pr,
+                   expected='process() receives, per completed poll, each parameter once with the values the device holds in that cycle; nothing for a failed poll')
+    if case['cut_at'] is None and state['failures']:
+        stats.fail('poll', 'poll:fault-free-poll-failed', case, observed={'failures': state['failures']}, expected='no failure without a fault')
+    stats.extra.setdefault('poll_s2c', 0)
+    if case['cut_at'] is None and relay.conns:
+        stats.extra['poll_s2c'] = len(relay.conns[0].s2c)
+
+
+CLAUSES = {'fault': pred_fault, 'sequence': pred_sequence, 'poll': pred_poll}
 
 
 def draw_exchanges(seed, n, maxops=12):
@@ -306,7 +373,30 @@ def draw_exchanges(seed, n, maxops=12):
     return got[:n]
 
 
+def poll_shard(job):
+    """Fault-free run measures the reply stream of `cycles` polls on one connection; then every (stride-th) cut offset
+    after the first completed poll is replayed."""
+    _, ex, cycles, idx, nsh, stride = job
+    s = Stats()
+    base = {'exchange': ex, 'cycles': cycles}
+    probe = Stats()
+    common.run_pred(pred_poll, dict(base, cut_at=None), probe, 'poll')
+    total = int(probe.extra.get('poll_s2c', 0))
+    if idx == 0:
+        s.merge(probe)
+    if total <= 0:
+        return s
+    first = total // cycles          # roughly the end of the first poll (the stream starts with Register + List Identity)
+    for n, k in enumerate(range(first, total + 1, stride)):
+        if n % nsh == idx:
+            common.run_pred(pred_poll, dict(base, cut_at=k), s, 'poll')
+    s.extra.pop('poll_s2c', None)
+    return s
+
+
 def shard(job):
+    if job[0] == 'poll':
+        return poll_shard(job)
     kind, payload = job
     s = Stats()
     if kind == 'fault':
@@ -417,5 +507,11 @@ def run(tier, seed):
         for a, b in picks:
             seqs.append({'exchange': m['exchange'], 'faults': [{'dir': 's2c', 'kind': 'cut', 'at': a}, {'dir': 's2c', 'kind': 'cut', 'at': b}]})
     jobs += [('sequence', seqs[i::4]) for i in range(4) if seqs[i::4]]
+    # poll.run over several cycles with a cut in a later cycle
+    pex = [m['exchange'] for m in measured if m['ok']][:(6 if thorough else 2)]
+    for ex in pex:
+        jobs += [('poll', dict(ex, api='proxy'), 4, i, 4, 1 if thorough else 3) for i in range(4)]
+    stats.exhaustive['poll.run'] = ('%d exchanges x 4 poll cycles on one connection: every %s cut offset of the reply stream after the first completed poll'
+                                    % (len(pex), 'byte' if thorough else 'third'))
     common.parallel(shard, jobs, stats=stats)
     return stats
